@@ -61,8 +61,9 @@ Definition check_row (sch : schema) (r : row) : option err :=
   end.
 
 (* the row an INSERT with column list `cols` and values `vals` denotes: each schema column
-   takes the value given for it (the last one if named twice), NULL if not named; names that
-   are not columns are ignored *)
+   takes the value given for it, NULL if not named. Column lists naming an unknown column or a
+   column twice are refused (cols_err) before build_row is used, so its behaviour on them
+   (last value wins, unknown names ignored) is never observable. *)
 Fixpoint assoc_last (c : string) (cols : list string) (vals : list value) (acc : value) : value :=
   match cols, vals with
   | x :: cr, v :: vr => assoc_last c cr vr (if String.eqb x c then v else acc)
@@ -84,11 +85,12 @@ Fixpoint insert_all (sch : schema) (cols : list string) (rows : list (list value
   | vals :: rest =>
       let cols' := match cols with [] => map fd_name sch | _ => cols end in
       if negb (Nat.eqb (length cols') (length vals)) then Err EColCount else
+      match cols_err (map fd_name sch) cols' [] with Some e => Err e | None =>
       let r := build_row sch cols' vals (null_row sch) in
       match check_row sch r with
       | Some e => Err e
       | None => do more <- insert_all sch cols rest; Ok (r :: more)
-      end
+      end end
   end.
 
 Definition matches (w : option expr) (sch : schema) (r : row) : res bool :=
@@ -106,8 +108,9 @@ Fixpoint update_all (w : option expr) (sch : schema) (cols : list string) (vals 
       do m <- matches w sch r;
       do more <- update_all w sch cols vals rest;
       if m then
+        match cols_err (map fd_name sch) cols [] with Some e => Err e | None =>
         let r' := build_row sch cols vals r in
-        match check_row sch r' with Some e => Err e | None => Ok (r' :: more) end
+        match check_row sch r' with Some e => Err e | None => Ok (r' :: more) end end
       else Ok (r :: more)
   end.
 
